@@ -21,6 +21,11 @@ Decided clauses:
         reachable from the password-hashing and guarded-allocation APIs, reported as R12.6/R20.x.
   R12.5 no definite tail over-read: a fixed-size read at buffer + (length - r) - r being the remainder a
         word loop leaves, bounded by the branch facts - needs at least that many bytes to remain.
+  R12.7 optional (nullable) pointer parameters: when a public function - with its small static helpers inlined - compares a
+        pointer parameter with NULL anywhere, the parameter is optional by the function's own account; every access through it
+        (load, store, memset / memcpy / memmove / sodium_memzero) must then sit on a path whose branch facts say it is not NULL.
+        An access that comes before the test, or on the arm where the pointer is NULL, is a write / read through NULL for an
+        in-contract call (tag-only verification with m == NULL, optional length out-parameters).
 NOT decided: absence of out-of-bounds / undefined behaviour in general (needs a relational numeric
 domain over loop indices; goto-analyzer was tried and is unusable — DESIGN §7).
 """
@@ -204,6 +209,75 @@ def run(ctx, chk):
         def __getattr__(self, n):
             return getattr(self._c, n)
     c20.analyse(prog, _Renamed(chk), "native")
+    null_rule(prog, chk)
+
+
+DEREF_FILL = ("memset", "llvm.memset", "sodium_memzero")
+DEREF_COPY = ("memcpy", "memmove", "llvm.memcpy", "llvm.memmove")
+
+
+def null_tested_params(fn):
+    out = set()
+    for ins in fn.insts:
+        if ins["op"] == "icmp" and ins.get("pred") in ("eq", "ne"):
+            a, b = ins["ops"]
+            for x, y in ((a, b), (b, a)):
+                if x[0] == "a" and fn.params[x[1]]["ty"].endswith("*") and (y[0] == "null" or (y[0] == "i" and y[1] == 0)):
+                    out.add(x[1])
+    return out
+
+
+def null_rule(prog, chk):
+    """R12.7: no access through an optional pointer parameter unless the path knows it is not NULL"""
+    from .. import inline
+    n = nf = 0
+    skipped = []
+    for fn in sorted(prog.functions(), key=lambda f: (f.unit, f.name)):
+        if not fn.public or len(fn.insts) > 2500:
+            continue
+        twin = inline.inlined(prog, fn, keep=cm.rule_named_functions()) if cm.os.environ.get("VERIF_INLINE", "1") == "1" else fn
+        tested = null_tested_params(twin)
+        if not tested:
+            continue
+        try:
+            ps = cm.paths(prog, fn, max_paths=3000)
+        except AnalysisBroken:
+            skipped.append(fn.sname)       # path budget: function not judged (named in the evidence)
+            continue
+        nf += 1
+        seen = set()
+        for p in ps:
+            for e in p.events:
+                roots = []
+                if e.kind in ("load", "store"):
+                    roots.append(T.root(e.addr))
+                elif e.kind == "call":
+                    nm = e.callee_name() or ""
+                    if nm.startswith(DEREF_FILL):
+                        roots += [T.root(a) for a in e.args[:1] if isinstance(a, tuple)]
+                    elif nm.startswith(DEREF_COPY):
+                        roots += [T.root(a) for a in e.args[:2] if isinstance(a, tuple)]
+                for r in roots:
+                    if r[0] != "arg" or r[1] not in tested:
+                        continue
+                    n += 1
+                    z = p.facts_before(e.idx).zeroness(r)
+                    ok = z == "NZ"
+                    if not ok and (e.iid, r) in seen:
+                        continue
+                    if not ok:
+                        seen.add((e.iid, r))
+                    pn = fn.params[r[1]]["name"]
+                    chk.ob("R12.7", fn, "accesses through the optional pointer parameter are dominated by a non-NULL fact", ok,
+                           loc=fn.loc(e.iid), path=None if ok else p,
+                           detail="" if ok else "%s is compared with NULL in %s, but the %s at %s goes through it %s" %
+                           (pn, fn.sname, (e.callee_name() or "call") if e.kind == "call" else e.kind, fn.loc(e.iid),
+                            "on the arm where it IS NULL" if z == "Z" else "before / without the test: a caller using the NULL form "
+                            "of the contract faults here"), key="R12.7 %s %s" % (fn.sname, pn))
+    if skipped and not chk.relaxed:
+        chk.note("R12.7 does not judge (path budget): %s" % ", ".join(sorted(skipped)))
+    chk.floor("R12.7", "public functions with an optional pointer parameter", nf, 20)
+    chk.floor("R12.7", "accesses through optional pointer parameters", n, 150)
 
 
 def chase_all(f, o):
